@@ -282,6 +282,9 @@ def explore(
 ) -> Result:
     t0 = time.time()
     workers = workers or ncpu()
+    from .primer import prime_process
+
+    prime_process()  # before the workers are forked
     world = _load(world_spec)
     monitors: Monitors = _load(monitor_spec)
     res = Result()
